@@ -5,6 +5,7 @@ mod logparse;
 mod models;
 mod prng;
 mod props_git;
+mod props_listen;
 mod props_log;
 mod props_run;
 mod props_store;
@@ -27,6 +28,8 @@ fn props() -> Vec<Box<dyn Property>> {
         Box::new(props_git::C19),
         Box::new(props_log::C08),
         Box::new(props_store::C12),
+        Box::new(props_listen::C15),
+        Box::new(props_listen::C20),
         Box::new(props_store::C13),
     ]
 }
